@@ -139,7 +139,7 @@ impl Database {
         let columns = table_def.columns().to_vec();
         let has_toast = table_def.has_toast();
 
-        let secondary_indexes: Vec<(String, Vec<usize>)> = table_def
+        let secondary_indexes: Vec<(String, Vec<usize>, bool)> = table_def
             .indexes()
             .iter()
             .filter(|idx| idx.index_type() == IndexType::BTree)
@@ -148,7 +148,7 @@ impl Database {
                     .columns()
                     .filter_map(|col_name| columns.iter().position(|c| c.name() == col_name))
                     .collect();
-                (idx.name().to_string(), col_indices)
+                (idx.name().to_string(), col_indices, idx.is_unique())
             })
             .collect();
 
@@ -625,7 +625,7 @@ impl Database {
             }
         }
 
-        for (index_name, col_indices) in &secondary_indexes {
+        for (index_name, col_indices, is_unique) in &secondary_indexes {
             if col_indices.is_empty() {
                 continue;
             }
@@ -642,17 +642,22 @@ impl Database {
 
                 let mut index_btree = BTree::new(&mut *index_storage, index_root_page)?;
 
-                for (_row_key, _old_value, row_values) in &rows_to_delete {
+                for (row_key, _old_value, row_values) in &rows_to_delete {
                     let all_non_null = col_indices
                         .iter()
                         .all(|&idx| row_values.get(idx).is_some_and(|v| !v.is_null()));
 
-                    if all_non_null {
+                    // the keys INSERT wrote: unique indexes hold rows without NULLs under the
+                    // bare column key, the others every row under column key ++ row id
+                    if all_non_null || !*is_unique {
                         key_buf.clear();
                         for &col_idx in col_indices {
                             if let Some(value) = row_values.get(col_idx) {
                                 Self::encode_value_as_key(value, &mut key_buf);
                             }
+                        }
+                        if !*is_unique {
+                            key_buf.extend_from_slice(row_key);
                         }
                         let _ = index_btree.delete(&key_buf);
                     }
